@@ -418,6 +418,9 @@ def fromiter(it, dtype=None, count=-1, **k):
 
 # ------------------------------------------------------------------------- elementwise maths
 
+EXACT_SQRT = [False]   # harness switch: sqrt(2.0), sqrt(3) ... become exact algebraic atoms instead of doubles
+
+
 def _mk1(name, symf, cf=None):
     mf = getattr(math, name, None)
     cmf = getattr(cmath, name, None)
@@ -430,6 +433,11 @@ def _mk1(name, symf, cf=None):
         if isinstance(x, (complex, _np.complexfloating)):
             return cmf(x)
         if isinstance(x, (int, float, _np.integer, _np.floating, _np.bool_)):
+            if name == 'sqrt' and EXACT_SQRT[0] and x > 0:
+                q = _sym.float_to_fraction(x)
+                if q.denominator <= 1000 and q.numerator <= 10 ** 6:
+                    r = Sym.const(q).sqrt()
+                    return r if not r.is_const() else builtins.float(r.cval())
             try:
                 return mf(x)
             except ValueError:
